@@ -3,6 +3,7 @@ use crate::case::{Case, Outcome};
 use crate::gen::GenCfg;
 use proptest::prelude::*;
 
+pub mod cancel;
 pub mod chan;
 pub mod condvar;
 pub mod mutex;
@@ -25,6 +26,7 @@ pub const FAMILIES: &[Family] = &[
     Family { name: "sem", runtime: true, max_steps: 300_000, run: sem::run },
     Family { name: "condvar", runtime: true, max_steps: 300_000, run: condvar::run },
     Family { name: "rwlock", runtime: true, max_steps: 300_000, run: rwlock::run },
+    Family { name: "cancel", runtime: true, max_steps: 300_000, run: cancel::run },
 ];
 
 pub fn lookup(name: &str) -> Option<&'static Family> {
@@ -55,6 +57,13 @@ fn chan_c07(g: &GenCfg) -> BoxedStrategy<Case> {
 }
 
 pub const PROPS: &[Prop] = &[
+    Prop {
+        id: "C09",
+        quick: 6000,
+        thorough: 300_000,
+        rule: "cancel family: a target coroutine owning 0-3 drop-counted stack values (optionally holding a second Mutex) runs 1-4 distinct blocking operations out of park, sleep, Mutex::lock, Semphore::wait, Condvar::wait, mpsc/mpmc recv, join, SyncFlag::wait, RwLock::write, UnixStream::read, cqueue poll; a granter issues each awaited event after a generated delay; 0-2 bystanders wait on the same primitives; a canceller cancels the target at a generated time; generated schedule. Non-trivial = at least one pre-emption AND the target ended with Cancel AND (the cancel raced with a grant, or bystanders were present, or a pre-emption happened inside park.rs / cancel.rs). Distinct = distinct hash of (program, config, schedule).",
+        units: &[Unit { fam: "cancel", label: "cancel", share: 1, strategy: cancel::strategy }],
+    },
     Prop {
         id: "C05",
         quick: 6000,
